@@ -1,6 +1,7 @@
 import Driver.Util
 import CtyModel.JsonVal
 import CtyModel.JsonValSpec
+import CtyModel.JsonD15
 open CtyModel CtyModel.JsonVal
 
 /-- oracle table of a case: `(tbl (nfc (raw nfc)*) (hk (ety payload id hex)*))` -/
@@ -36,16 +37,20 @@ def handleJsonVal : Handler := fun op args =>
   | "json.implied", [tbl, j] => do
     let env ← decEnv tbl
     let j ← Json.ofSexp j
-    pure (resTag (fun t => toString t.toSexp) (impliedType env j))
+    pure (resTag (fun t => toString t.toSexp) (impliedTypeGo env j))
   | "json.simple", [tbl, j] => do
     let env ← decEnv tbl
     let j ← Json.ofSexp j
-    pure (resTag (fun v => toString v.toSexp) (simpleUnmarshal env j))
+    pure (resTag (fun v => toString v.toSexp) (simpleUnmarshalGo env j))
   | "json.applies", [tbl, v, t] => do
     -- do the hypotheses of C15.roundtrip_partial hold?  (hypotheses, set-free, exact)
     let env ← decEnv tbl
     let v ← Value.ofSexp v; let t ← Ty.ofSexp t
     pure s!"{Sexp.encBool (rtHypsCore env v t)} {Sexp.encBool (setFree v.ty)} {Sexp.encBool (exact t v.ty v.v)}"
+  | "json.mirrorw", [v, t, j] => do
+    -- C15.mirror_structure_any_constraint: Lean's specification evaluated on the REAL output
+    let v ← Value.ofSexp v; let t ← Ty.ofSexp t; let j ← Json.ofSexp j
+    pure (toString (Sexp.encBool (mirrorsW t v.ty v.v j)))
   | "json.same", [a, b] => do
     -- the specification of "equal value" against the real RawEquals (same type, set-free)
     let a ← Value.ofSexp a; let b ← Value.ofSexp b
@@ -54,6 +59,14 @@ def handleJsonVal : Handler := fun op args =>
     let env ← decEnv tbl
     let j ← Json.ofSexp j
     pure (toString (Sexp.encBool (docOK env j)))
+  | "json.simplemarshal", [tbl, v] => do
+    let env ← decEnv tbl
+    let v ← Value.ofSexp v
+    pure (resTag (fun j => toString j.toSexp) (simpleMarshal env v))
+  | "json.docoku", [tbl, j] => do
+    let env ← decEnv tbl
+    let j ← Json.ofSexp j
+    pure (toString (Sexp.encBool (docOKU env j)))
   | "json.parsenum", [s] => do
     let s ← Sexp.decStr s
     pure (resTag (fun n => toString n.toSexp) (Num.parse512 s))
